@@ -1070,3 +1070,98 @@ Definition routes (st : state) (px : pubctx) : Prop :=
   | KP2P => px_orig px = TP2P \/ exists p, lookup (px_author px) (st_users st) = Some p /\ px_orig px = TUsr (pu_peer p)
   | _ => px_orig px = TGrp \/ px_orig px = TChn
   end.
+
+(* ------------------------------------------------------------------ *)
+(* the {info} branch *)
+Definition info_eligible (st : state) (ix : infoctx) (sd : sid * psd) : bool :=
+  negb (match ix_skip ix with Some k => fst sd =? k | None => false end) &&
+  (ix_src ix || (negb (ss_chan (snd sd)) && user_is_reader st (ss_uid (snd sd)))) &&
+  negb (mem (fst sd) (ix_skipsubs ix)) &&
+  negb ((ix_what ix =? W_KP) && (ix_from ix =? ss_uid (snd sd))).
+
+Definition icopy_of (st : state) (ix : infoctx) (sd : sid * psd) : sid * idelivery :=
+  (fst sd, if is_full st (fst sd) then IOverflow
+           else ISent (prepare_info st (snd sd) (mkIFrame (ix_topic ix) (ix_from ix) (ix_what ix) (ix_seq ix)))).
+
+Lemma info_loop_spec st ix l :
+  info_loop st ix l = map (icopy_of st ix) (filter (info_eligible st ix) l).
+Proof.
+  induction l as [|[s d] r IH]; cbn [info_loop filter map]; [reflexivity|].
+  unfold info_eligible at 1. cbn [fst snd].
+  destruct (match ix_skip ix with Some k => s =? k | None => false end); cbn [negb andb]; [exact IH|].
+  destruct (ix_src ix); cbn [negb andb orb].
+  - destruct (mem s (ix_skipsubs ix)); cbn [negb andb]; [exact IH|].
+    destruct ((ix_what ix =? W_KP) && (ix_from ix =? ss_uid d)); cbn [negb map]; [exact IH|]. now rewrite IH.
+  - destruct (ss_chan d); cbn [negb andb orb]; [exact IH|].
+    destruct (user_is_reader st (ss_uid d)); cbn [negb andb orb]; [|exact IH].
+    destruct (mem s (ix_skipsubs ix)); cbn [negb andb]; [exact IH|].
+    destruct ((ix_what ix =? W_KP) && (ix_from ix =? ss_uid d)); cbn [negb map]; [exact IH|]. now rewrite IH.
+Qed.
+
+Lemma info_exact_set st ix :
+  Permutation (map fst (info_fanout st ix)) (map fst (filter (info_eligible st ix) (st_sess st))) /\
+  (wf_sess st -> NoDup (map fst (info_fanout st ix))) /\
+  (forall s, In s (map fst (info_fanout st ix)) <->
+             exists d, In (s, d) (st_sess st) /\ info_eligible st ix (s, d) = true).
+Proof.
+  unfold info_fanout. rewrite info_loop_spec, map_map. cbn [icopy_of fst].
+  split; [apply Permutation_refl|]. split.
+  - intros H. now apply NoDup_keys_filter.
+  - intros s. rewrite in_map_iff. split.
+    + intros [[s' d] [H1 H2]]. cbn in H1. subst. apply filter_In in H2. now exists d.
+    + intros [d [H1 H2]]. exists (s, d). split; [reflexivity|]. now apply filter_In.
+Qed.
+
+Lemma isent_spec st ix l s f :
+  In (s, f) (isent (map (icopy_of st ix) l)) <->
+  exists d, In (s, d) l /\ is_full st s = false /\
+            f = prepare_info st d (mkIFrame (ix_topic ix) (ix_from ix) (ix_what ix) (ix_seq ix)).
+Proof.
+  induction l as [|[s' d'] r IH]; cbn [map isent].
+  - split; [intros []|intros [d [[] _]]].
+  - unfold icopy_of at 1. cbn [fst snd]. destruct (is_full st s') eqn:Ef.
+    + rewrite IH. split; intros [d [H1 H2]]; exists d.
+      * split; [now right|exact H2].
+      * destruct H1 as [H1|H1]; [inv H1; destruct H2 as [H2 _]; congruence|now split].
+    + cbn [In]. rewrite IH. split.
+      * intros [H|[d [H1 H2]]]; [inv H; exists d'; split; [now left|now split]|exists d; split; [now right|exact H2]].
+      * intros [d [[H1|H1] [H2 H3]]]; [inv H1; now left|right; now exists d].
+Qed.
+
+(* a note relay (Src = "", SkipSid = the originating session): who gets the {info} frame *)
+Lemma note_relay_recipients st nx s f :
+  In (s, f) (isent (note_relay st nx)) ->
+  note_permitted st nx = true /\
+  exists d, In (s, d) (st_sess st) /\
+    s <> nx_sid nx /\ ss_chan d = false /\ user_is_reader st (ss_uid d) = true /\
+    (nx_what nx = W_KP -> ss_uid d <> nx_from nx) /\ is_full st s = false /\
+    i_from f = nx_from nx /\ i_what f = nx_what nx /\ i_seq f = nx_seq nx.
+Proof.
+  unfold note_relay. destruct (note_permitted st nx); [|intros []]. intros H. split; [reflexivity|].
+  unfold info_fanout in H. rewrite info_loop_spec in H. apply isent_spec in H. destruct H as [d [H1 [H2 H3]]].
+  apply filter_In in H1. destruct H1 as [H1 He]. exists d. split; [exact H1|].
+  unfold info_eligible, info_of_note in He. cbn [ix_skip ix_src ix_skipsubs ix_what ix_from fst snd mem] in He.
+  apply andb_true_iff in He. destruct He as [He H].
+  apply andb_true_iff in He. destruct He as [He _].
+  apply andb_true_iff in He. destruct He as [He H0].
+  apply negb_true_iff, N.eqb_neq in He. split; [exact He|].
+  cbn [orb] in H0. apply andb_true_iff in H0. destruct H0 as [Hc Hr]. apply negb_true_iff in Hc.
+  split; [exact Hc|]. split; [exact Hr|]. split.
+  - intros Hk Hu. apply negb_true_iff in H. rewrite Hk, Hu in H. cbn in H. rewrite N.eqb_refl in H. discriminate.
+  - split; [exact H2|]. subst f. unfold prepare_info. cbn.
+    destruct (st_kind st); try destruct (ss_uid d =? 0); cbn; auto.
+Qed.
+
+Lemma note_relay_complete st nx s d :
+  note_permitted st nx = true -> In (s, d) (st_sess st) ->
+  s <> nx_sid nx -> ss_chan d = false -> user_is_reader st (ss_uid d) = true ->
+  (nx_what nx = W_KP -> ss_uid d <> nx_from nx) ->
+  In s (map fst (note_relay st nx)).
+Proof.
+  intros Hp Hin Hs Hc Hr Hk. unfold note_relay. rewrite Hp.
+  apply (proj2 (proj2 (info_exact_set st (info_of_note nx))) s). exists d. split; [exact Hin|].
+  unfold info_eligible, info_of_note. cbn [ix_skip ix_src ix_skipsubs ix_what ix_from fst snd mem].
+  apply N.eqb_neq in Hs. rewrite Hs, Hc, Hr. cbn.
+  destruct (nx_what nx =? W_KP) eqn:Ek; [|reflexivity]. apply N.eqb_eq in Ek. specialize (Hk Ek).
+  cbn. destruct (nx_from nx =? ss_uid d) eqn:E; [apply N.eqb_eq in E; congruence|reflexivity].
+Qed.
